@@ -49,7 +49,7 @@ REAL = ['asyncssh stream.py (SSHReader/SSHWriter/SSHStreamSession), '
         'process.py (SSHClientProcess/SSHServerProcess, redirection), '
         'channel, connection of both endpoints']
 STUB = ['event loop + clock', 'TCP', 'executor', 'OS randomness']
-PROBES = ['mode_reader', 'mode_run', 'mode_redirect', 'text_mode',
+PROBES = ['async_iteration', 'mode_reader', 'mode_run', 'mode_redirect', 'text_mode',
           'tiny_packets', 'readuntil_multi', 'readuntil_regex',
           'incomplete_read_at_eof', 'limit_overrun', 'exit_signal',
           'exit_status', 'redirect_process', 'redirect_file']
@@ -111,7 +111,9 @@ def gen_prog(rng):
         else:
             prog.append([k])
 
-    prog.append(['readall'])
+    # the rest of the stream: everything at once, or line by line through
+    # the reader's async iterator
+    prog.append(['readall'] if rng.chance(75) else ['aiter'])
     return prog
 
 
@@ -168,9 +170,15 @@ def valid_plan(plan):
                 return False
 
         for prog in (plan['prog_out'], plan['prog_err'], plan['prog_in']):
+            # every stream has a consumer that reads it to EOF: the streams
+            # of a session share one receive window, an unread one would
+            # (legitimately) stall the others
+            if not prog or prog[-1][0] not in ('readall', 'aiter'):
+                return False
+
             for op in prog:
                 if op[0] not in ('read', 'exactly', 'line', 'until', 'y',
-                                 'readall'):
+                                 'readall', 'aiter'):
                     return False
 
                 if op[0] in ('read', 'exactly') and \
@@ -249,6 +257,38 @@ class RefReader:
             self.pos = len(self.s)
             return None
 
+        if kind == 'aiter':
+            # `async for line in reader`: the remaining lines, in order,
+            # each through its newline (the last one as far as EOF), however
+            # the data was chunked and whenever EOF became known
+            if exc is not None:
+                return 'async iteration raised %r' % (exc,)
+
+            joined = self.empty.join(result)
+
+            if joined != rem:
+                return 'async iteration yielded %d units in all, %d remain ' \
+                    'to EOF' % (len(joined), len(rem))
+
+            if any(len(item) == 0 for item in result):
+                return 'async iteration yielded an empty item (%d items, ' \
+                    'last %r)' % (len(result), result[-1:])
+
+            nl = '\n' if self.text else b'\n'
+            want = rem.split(nl)
+            want = [w + nl for w in want[:-1]] + ([want[-1]] if want[-1]
+                                                  else [])
+            self.pos = len(self.s)
+
+            if result != want:
+                if len(rem) + 4 >= self.limit:
+                    return 'LIMIT'
+
+                return 'async iteration split the stream into %d items, ' \
+                    'the lines are %d' % (len(result), len(want))
+
+            return None
+
         if kind == 'exactly':
             n = op[1]
 
@@ -290,10 +330,15 @@ class RefReader:
                 # buffer-limit give-up: readline() then returns what is
                 # buffered, a (possibly empty) prefix without the newline
                 if result == rem[:len(result)] and \
-                        len(result) < len(want) and \
+                        0 < len(result) < len(want) and \
                         len(result) + 4 >= self.limit:
                     self.pos += len(result)
                     return 'LIMIT'
+
+                if not result and rem:
+                    return 'readline() returned an empty result -- the ' \
+                        'end-of-file indication -- with %d units still to ' \
+                        'come' % len(rem)
 
                 return 'readline() returned %d units, expected %d (through ' \
                     'the first newline)' % (len(result), len(want))
@@ -315,7 +360,7 @@ class RefReader:
 
             if isinstance(exc, asyncio.IncompleteReadError) and \
                     exc.partial == rem[:len(exc.partial)] and \
-                    len(exc.partial) < len(want) and \
+                    0 < len(exc.partial) < len(want) and \
                     len(exc.partial) + 4 >= self.limit:
                 self.pos += len(exc.partial)
                 return 'LIMIT'
@@ -359,6 +404,17 @@ async def run_program(world, name, reader, prog, ref, sep_compile):
                 result = await reader.read(op[1])
             elif kind == 'readall':
                 result = await reader.read()
+            elif kind == 'aiter':
+                result = []
+
+                async for item in reader:
+                    result.append(item)
+
+                    if len(result) > 4 * len(ref.s) + 16:
+                        # more items than units: the iterator is spinning
+                        break
+
+                sim.probes['async_iteration'] += 1
             elif kind == 'exactly':
                 result = await reader.readexactly(op[1])
             elif kind == 'line':
